@@ -16,7 +16,7 @@ K("c16_pel_add_rest", "cg", ["C16"], tier="quick", timeout=1200,
   desc="PendingEntryList::add_entry of an ID that is not pending, for an existing or new consumer: ID pending for that consumer, others keep their owner, counts and bounds agree",
   encodes=["PendingEntryList::add_entry", "PendingEntryList::update_bounds"], bounds="2 pending IDs owned by a and b; 1 symbolic ID + consumer; containers <= 4 entries (inline family); unwind 5",
   stubs=VEC + NOW, assumptions=[PRE, LIGHT])
-K("c16_pel_add_kf", "cg", ["C16"], tier="thorough", timeout=1200, expect="kf:KF-C16-readd-pending",
+K("c16_pel_add_kf", "cg", ["C16"], tier="thorough", timeout=1200, expect="hold",
   desc="region: the ID is already pending (XREADGROUP g c STREAMS k 0 re-delivers history through add_pending; or delivery of an ID pending for another consumer): per-consumer lists then hold 3 IDs for 2 pending entries (duplicate / stale ownership), counters drift",
   encodes=["PendingEntryList::add_entry"], bounds="as c16_pel_add_rest", stubs=VEC + NOW, assumptions=[PRE, LIGHT])
 K("c16_pel_remove_ab", "cg", ["C16"], tier="quick", timeout=1200,
@@ -35,7 +35,7 @@ K("c16_create_cursor_rest", "cg", ["C16"], tier="quick", timeout=600,
   desc="XGROUP CREATE at 0-0: cursor 0-0; second CREATE refused; SETID sets the cursor to any ID; DESTROY removes exactly that group",
   encodes=["ConsumerGroupManager::create_group", "get_group", "destroy_group", "group_count", "ConsumerGroup::new", "set_id", "get_last_id"],
   bounds="1 group; SETID argument full-width symbolic; unwind 5", stubs=NOW)
-K("c16_create_cursor_kf", "cg", ["C16"], tier="thorough", timeout=600, expect="kf:KF-C16-create-start-ignored",
+K("c16_create_cursor_kf", "cg", ["C16"], tier="thorough", timeout=600, expect="hold",
   desc="region: start position != 0-0 (XGROUP CREATE k g $ or an explicit ID): the new group's cursor must be the start position, ferrous always starts at 0-0 (the whole history is delivered)",
   encodes=["ConsumerGroupManager::create_group", "ConsumerGroup::new", "ConsumerGroup::get_last_id"], bounds="start full-width symbolic; unwind 5", stubs=NOW)
 
@@ -45,6 +45,6 @@ K("c16_readgroup_noack_rest", "stream", ["C16"], tier="quick", timeout=600, fs_a
   desc="XREADGROUP NOACK > with nothing after the cursor (2-entry stream, arbitrary cursor, COUNT): empty reply, cursor and pending set unchanged",
   encodes=["Stream::read_group", "StreamData::range_after", "ConsumerGroupManager::get_group", "ConsumerGroup::get_last_id"],
   bounds="2 entries, IDs/cursor/COUNT symbolic; unwind 5", stubs=RG)
-K("c16_readgroup_noack_kf", "stream", ["C16"], tier="thorough", timeout=600, fs_array=4096, expect="kf:KF-C16-noack-cursor",
+K("c16_readgroup_noack_kf", "stream", ["C16"], tier="thorough", timeout=600, fs_array=4096, expect="hold",
   desc="region: NOACK and at least one entry after the cursor: reply is correct but the cursor does not advance, so the next XREADGROUP > delivers the same entries again",
   encodes=["Stream::read_group"], bounds="as c16_readgroup_noack_rest", stubs=RG)
